@@ -1,2 +1,13 @@
-(* C10 *)
-From WaxModel Require Import Base.
+(* C10 -- Reported depth bounds contain the depth of every match (first lemma only: the terms of the leaves;
+   the soundness statement [C10_full] is decided per generated pattern by the check, not yet proved). *)
+From WaxModel Require Import Base Token Regex Spec Variance Fold.
+From WaxProofs Require Import RuleFacts.
+
+Definition C10_full (orbit : char -> list char) (ncomp : str -> N) (canonical : str -> Prop) : Prop :=
+  forall t p v, depth_variance t = Ok v -> Lang orbit t p -> canonical p -> 1 <= ncomp p -> in_variance (ncomp p) v.
+
+Theorem C10_leaf_depth :
+  forall sp l, depth_variance (TLeaf sp l) =
+    match l with LSep => Ok (Inv 0) | LTree _ => Ok (Var Unbounded) | _ => Ok (Inv 1) end.
+Proof. exact depth_single_leaf. Qed.
+Print Assumptions C10_leaf_depth.
